@@ -48,13 +48,17 @@ fn angle_arg(rng: &mut Rng) -> f64 {
 }
 
 fn setup_of(crystal: &CrystalType, theta: f64, phi: f64) -> CrystalSetup {
+  setup_of_t(crystal, theta, phi, 20.0)
+}
+
+fn setup_of_t(crystal: &CrystalType, theta: f64, phi: f64, t_c: f64) -> CrystalSetup {
   CrystalSetup {
     crystal: crystal.clone(),
     pm_type: PMType::Type2_e_eo,
     theta: theta * RAD,
     phi: phi * RAD,
     length: 2e-3 * M,
-    temperature: from_celsius_to_kelvin(20.0),
+    temperature: from_celsius_to_kelvin(t_c),
     counter_propagation: false,
   }
 }
@@ -86,7 +90,7 @@ fn execute(id: usize, cid: &str, setup: &CrystalSetup, pol: PolarizationType, ph
     // what the Snell inversion returns on the state the setter sees (the "requested" internal angle of this step)
     let snell_internal = if name == "set_theta_external" {
       guarded({ let bb = beam.clone(); let st = setup.clone(); let a0 = args[0];
-        move || *(Beam::calc_internal_theta_from_external(&bb, a0.abs() * RAD, &st) / RAD) }).ok()
+        move || *(Beam::calc_internal_theta_from_external(&bb, a0 * RAD, &st) / RAD) }).ok()
     } else {
       None
     };
@@ -184,21 +188,28 @@ fn replay(js: &str, crystals: &[(String, CrystalType)]) {
       .collect();
     execute(0, cid, &setup, pol_str(&init["pol"]), hexf(&init["phi"]), hexf(&init["theta"]), hexf(&init["lambda"]), hexf(&init["waist"]), &ops);
   } else if v["kind"] == "snell" {
-    snell_at(cid, &crystal, pol_str(&v["pol"]), hexf(&v["ct"]), hexf(&v["cp"]), hexf(&v["lambda"]), hexf(&v["te"]), hexf(&v["bphi"]), "replay");
+    let t_c = if v["tc"].is_string() { hexf(&v["tc"]) } else { 20.0 };
+    snell_at(cid, &crystal, pol_str(&v["pol"]), hexf(&v["ct"]), hexf(&v["cp"]), t_c, hexf(&v["lambda"]), hexf(&v["te"]), hexf(&v["bphi"]), "replay");
   }
 }
 
 fn snell(rng: &mut Rng, cid: &str, crystal: &CrystalType, pol: PolarizationType, theta_e_deg: f64, bphi: f64, gen: &str) {
-  let ct = rng.range(0.35, 1.45);
+  // crystal angle: the whole quadrant incl. 0 and 90 deg and their neighbourhoods; temperature: 20 C or anywhere in -50..200 C
+  let ct = match rng.below(8) {
+    0 => *rng.pick(&[0.0, 1e-3, 0.05, PI / 2.0, PI / 2.0 - 1e-3, PI / 2.0 - 0.05]),
+    1 | 2 => rng.range(0.0, PI / 2.0),
+    _ => rng.range(0.35, 1.45),
+  };
   let cp = rng.range(0.0, 2.0 * PI);
+  let t_c = if rng.coin() { 20.0 } else { rng.range(-50.0, 200.0) };
   let (wlo, whi) = window(crystal);
   let lambda = rng.range(wlo, whi);
-  snell_at(cid, crystal, pol, ct, cp, lambda, theta_e_deg * PI / 180.0, bphi, gen);
+  snell_at(cid, crystal, pol, ct, cp, t_c, lambda, theta_e_deg * PI / 180.0, bphi, gen);
 }
 
 #[allow(clippy::too_many_arguments)]
-fn snell_at(cid: &str, crystal: &CrystalType, pol: PolarizationType, ct: f64, cp: f64, lambda: f64, te: f64, bphi: f64, gen: &str) {
-  let setup = setup_of(crystal, ct, cp);
+fn snell_at(cid: &str, crystal: &CrystalType, pol: PolarizationType, ct: f64, cp: f64, t_c: f64, lambda: f64, te: f64, bphi: f64, gen: &str) {
+  let setup = setup_of_t(crystal, ct, cp, t_c);
   let theta_e_deg = te * 180.0 / PI;
   let beam0 = Beam::new(pol, bphi * RAD, 0.1 * RAD, lambda * M, 100e-6 * M);
   // replica of calc_internal_theta_from_external's optimisation from public API, with its evaluation table (tie to the
@@ -206,19 +217,22 @@ fn snell_at(cid: &str, crystal: &CrystalType, pol: PolarizationType, ct: f64, cp
   let replica = {
     let b = beam0.clone();
     let st = setup.clone();
-    let snell_external = te.sin();
+    let sign = te.signum();
+    let snell_external = te.sin().abs();
+    let guess = te.abs();
     let phi = b.phi();
     let curve = move |internal: f64| {
-      let direction = direction_from_polar(phi, internal * RAD);
+      let direction = direction_from_polar(phi, sign * internal * RAD);
       let n = st.index_along(b.vacuum_wavelength(), direction, b.polarization());
       (snell_external - (*n) * f64::sin(internal)).abs()
     };
-    let (r, table) = crate::c04::nm_traced(curve, (te, te + 1.0), 100, 0.0, std::f64::consts::FRAC_PI_2, 1e-12);
+    let (r, table) = crate::c04::nm_traced(curve, (guess, guess + 1.0), 100, 0.0, std::f64::consts::FRAC_PI_2, 1e-12);
     let direct = guarded({ let b = beam0.clone(); let st = setup.clone(); move || *(Beam::calc_internal_theta_from_external(&b, te * RAD, &st) / RAD) });
     json!({
       "result": match &r { Ok(x) => json!({"ok": true, "x": fx(*x)}), Err(m) => json!({"ok": false, "panic": m}) },
+      "signed": r.as_ref().ok().map(|x| fx(sign * *x)),
       "table": Value::Array(table.iter().map(|(x, c)| json!([fx(*x), fx(*c)])).collect()),
-      "g0": fx(te), "g1": fx(te + 1.0), "max_iter": 100, "min": fx(0.0), "max": fx(std::f64::consts::FRAC_PI_2), "tol": fx(1e-12),
+      "g0": fx(guess), "g1": fx(guess + 1.0), "max_iter": 100, "min": fx(0.0), "max": fx(std::f64::consts::FRAC_PI_2), "tol": fx(1e-12),
       "direct": direct.ok().map(fx),
     })
   };
@@ -235,12 +249,12 @@ fn snell_at(cid: &str, crystal: &CrystalType, pol: PolarizationType, ct: f64, cp
   });
   match r {
     Ok((back, ti, n, ind, d, phi, weff)) => emit(json!({
-      "kind": "snell", "id": cid, "pol": pol_name(pol), "ct": fx(ct), "cp": fx(cp), "lambda": fx(lambda), "weff": fx(weff),
+      "kind": "snell", "id": cid, "pol": pol_name(pol), "ct": fx(ct), "cp": fx(cp), "tc": fx(t_c), "lambda": fx(lambda), "weff": fx(weff),
       "bphi": fx(bphi), "phi": fx(phi), "te": fx(te), "te_deg": fx(theta_e_deg), "back": fx(back), "ti": fx(ti), "n": fx(n),
       "ind": fxs(&ind), "dir": fxs(&d), "gen": gen, "replica": replica,
     })),
     Err(msg) => emit(json!({
-      "kind": "snell", "id": cid, "pol": pol_name(pol), "ct": fx(ct), "cp": fx(cp), "lambda": fx(lambda),
+      "kind": "snell", "id": cid, "pol": pol_name(pol), "ct": fx(ct), "cp": fx(cp), "tc": fx(t_c), "lambda": fx(lambda),
       "bphi": fx(bphi), "te": fx(te), "te_deg": fx(theta_e_deg), "panic": msg, "gen": gen,
     })),
   }
@@ -272,8 +286,9 @@ pub fn run(args: &[String]) {
         let bphi = *rng.pick(&[0.0, PI / 2.0, PI, 1.0]);
         snell(&mut rng, cid, crystal, pol, te, bphi, "fixed");
       }
-      for _ in 0..n_snell {
-        let te = rng.range(0.0, 80.0);
+      for k in 0..n_snell {
+        // the property's range is [0, 80] deg; every third draw is the mirrored (negative) angle
+        let te = rng.range(0.0, 80.0) * if k % 3 == 2 { -1.0 } else { 1.0 };
         let bphi = rng.range(0.0, 2.0 * PI);
         snell(&mut rng, cid, crystal, pol, te, bphi, "rand");
       }
@@ -291,7 +306,7 @@ pub fn run(args: &[String]) {
         let _ = st0;
         let te = (n0 * ti.sin()).min(0.98).asin();
         if te <= 80.0 * PI / 180.0 {
-          snell_at(cid, crystal, pol, ti + offs, cp, lambda, te, PI, "onaxis");
+          snell_at(cid, crystal, pol, ti + offs, cp, 20.0, lambda, te, PI, "onaxis");
         }
       }
       // small external angles (log-uniform)
@@ -330,23 +345,73 @@ pub fn run(args: &[String]) {
     let a = angle_arg(&mut rng);
     emit(json!({"kind": "norm", "x": fx(a), "u": fx(*(normalize_angle(a * RAD) / RAD)), "s": fx(*(normalize_angle_signed(a * RAD) / RAD))}));
   }
-  // ---- automatic waist position
+  // ---- automatic waist position: the function itself (crystal angle over the whole quadrant, any temperature) …
   for (cid, crystal) in crystals.iter() {
     for pol in pols {
-      for _ in 0..2.max(n_snell / 2) {
-        let ct = rng.range(0.2, 1.5);
+      for k in 0..2.max(n_snell / 2) {
+        let ct = if k == 0 { *rng.pick(&[0.0, PI / 2.0, 1e-3]) } else { rng.range(0.0, PI / 2.0) };
         let cp = rng.range(0.0, 2.0 * PI);
-        let mut setup = setup_of(crystal, ct, cp);
+        let t_c = if rng.coin() { 20.0 } else { rng.range(-50.0, 200.0) };
+        let mut setup = setup_of_t(crystal, ct, cp, t_c);
         let len = rng.log_range(1e-4, 5e-2);
         setup.length = len * M;
         let (wlo, whi) = window(crystal);
         let lambda = rng.range(wlo, whi);
         let z = guarded({ let st = setup.clone(); move || *(st.optimal_waist_position(lambda * M, pol) / M) });
         let nz = guarded({ let st = setup.clone(); move || *st.index_along(lambda * M, Unit::new_normalize(Vector3::z()), pol) });
-        emit(json!({"kind": "waist", "id": cid, "pol": pol_name(pol), "ct": fx(ct), "cp": fx(cp), "len": fx(len), "lambda": fx(lambda),
+        emit(json!({"kind": "waist", "id": cid, "pol": pol_name(pol), "ct": fx(ct), "cp": fx(cp), "tc": fx(t_c), "len": fx(len), "lambda": fx(lambda),
                     "z": z.ok().map(fx), "nz": nz.ok().map(fx)}));
       }
     }
   }
+  // ---- … and its callers: SPDCConfig::try_as_spdc with `auto` positions, SPDC::assign_optimal_waist_positions,
+  //      with_optimal_waist_positions, try_as_optimum — for signal/idler pairs of different polarization and wavelength
+  let pm_types = ["o->oo", "e->ee", "e->oo", "e->eo", "e->oe"];
+  for (cid, crystal) in crystals.iter() {
+    for (k, pm) in pm_types.iter().enumerate() {
+      let (wlo, whi) = window(crystal);
+      // non-degenerate pair with all three wavelengths inside the window where possible
+      let ls = rng.range(wlo + 0.45 * (whi - wlo), wlo + 0.8 * (whi - wlo));
+      let li = ls * rng.range(1.08, 1.25);
+      let lp = 1.0 / (1.0 / ls + 1.0 / li);
+      let theta_deg = rng.range(15.0, 85.0);
+      let phi_deg = rng.range(0.0, 360.0);
+      let len_um = rng.log_range(200.0, 20000.0);
+      let t_c = if k % 2 == 0 { 20.0 } else { rng.range(-50.0, 200.0) };
+      let cfg = json!({
+        "crystal": {"kind": cid, "pm_type": pm, "phi_deg": phi_deg, "theta_deg": theta_deg, "length_um": len_um, "temperature_c": t_c},
+        "pump": {"wavelength_nm": lp * 1e9, "waist_um": 100, "bandwidth_nm": 5.35, "average_power_mw": 1},
+        "signal": {"wavelength_nm": ls * 1e9, "phi_deg": 0, "theta_deg": 0, "waist_um": 100, "waist_position_um": "auto"},
+        "idler": {"wavelength_nm": li * 1e9, "phi_deg": 180, "theta_deg": 0, "waist_um": 100, "waist_position_um": "auto"},
+        "periodic_poling": Value::Null, "deff_pm_per_volt": 1.0
+      });
+      let built = guarded({ let c = cfg.clone(); move || serde_json::from_value::<SPDCConfig>(c).ok().and_then(|c| c.try_as_spdc().ok()) });
+      let spdc = match built { Ok(Some(s)) => s, _ => { emit(json!({"kind": "spdcwaist", "id": cid, "pm": pm, "path": "try_as_spdc", "built": false})); continue; } };
+      let report = |path: &str, s: &SPDC| {
+        let nz = |b: &Beam| guarded({ let st = s.crystal_setup.clone(); let w = b.vacuum_wavelength(); let p = b.polarization();
+                                      move || *st.index_along(w, Unit::new_normalize(Vector3::z()), p) }).ok();
+        emit(json!({
+          "kind": "spdcwaist", "id": cid, "pm": pm, "path": path, "built": true, "len": fx(*(s.crystal_setup.length / M)),
+          "theta_deg": fx(theta_deg), "phi_deg": fx(phi_deg), "tc": fx(t_c),
+          "ls": fx(*(s.signal.vacuum_wavelength() / M)), "li": fx(*(s.idler.vacuum_wavelength() / M)),
+          "ps": pol_name(s.signal.polarization()), "pi": pol_name(s.idler.polarization()),
+          "zs": fx(*(s.signal_waist_position / M)), "zi": fx(*(s.idler_waist_position / M)),
+          "nzs": nz(&s.signal).map(fx), "nzi": nz(&s.idler).map(fx),
+        }));
+      };
+      report("try_as_spdc", &spdc);
+      let mut a = spdc.clone();
+      a.signal_waist_position = 0.0 * M;
+      a.idler_waist_position = 0.0 * M;
+      if guarded({ let mut b = a.clone(); move || { b.assign_optimal_waist_positions(); b } }).map(|b| report("assign_optimal_waist_positions", &b)).is_err() {
+        emit(json!({"kind": "spdcwaist", "id": cid, "pm": pm, "path": "assign_optimal_waist_positions", "built": false}));
+      }
+      if let Ok(b) = guarded({ let b = a.clone(); move || b.with_optimal_waist_positions() }) {
+        report("with_optimal_waist_positions", &b);
+      }
+      if let Ok(Ok(b)) = guarded({ let b = a.clone(); move || b.try_as_optimum() }) {
+        report("try_as_optimum", &b);
+      }
+    }
+  }
 }
-
